@@ -59,6 +59,8 @@ theorem bigPowOk_of_check {E : Env} {base : Nat} (h : bigPowOkB E base = true) :
 
 def envDefault : Env := envOf {}
 def envCompact : Env := envOf { compact := true }
+/-- `power-of-two` without `radix`: the small tables of the radix build, the decimal big-integer sizes -/
+def envPow2 : Env := envOf { powerOfTwo := true }
 def envRadix : Env := envOf { radix := true, powerOfTwo := true }
 def envCompactRadix : Env := envOf { compact := true, radix := true, powerOfTwo := true }
 
@@ -70,6 +72,7 @@ def powBases (r : Nat) : List Nat := [r, r / 2, 2]
 
 theorem pow_tables_default : (powBases 10).all (bigPowOkB envDefault) = true := by decide +kernel
 theorem pow_tables_compact : (powBases 10).all (bigPowOkB envCompact) = true := by decide +kernel
+theorem pow_tables_pow2 : (powBases 10).all (bigPowOkB envPow2) = true := by decide +kernel
 theorem pow_tables_radix : digitRadices.all (fun r => (powBases r).all (bigPowOkB envRadix)) = true := by
   decide +kernel
 theorem pow_tables_compact_radix :
@@ -77,7 +80,7 @@ theorem pow_tables_compact_radix :
 
 /-- a build together with a radix it parses through `digit_comp` -/
 def EnvRadix (E : Env) (r : Nat) : Prop :=
-  ((E = envDefault ∨ E = envCompact) ∧ r = 10) ∨ ((E = envRadix ∨ E = envCompactRadix) ∧ r ∈ digitRadices)
+  ((E = envDefault ∨ E = envCompact ∨ E = envPow2) ∧ r = 10) ∨ ((E = envRadix ∨ E = envCompactRadix) ∧ r ∈ digitRadices)
 
 /-- for such a pair the three bases are covered by the evaluated checks -/
 theorem bigPowOk_of_envRadix {E : Env} {r : Nat} (h : EnvRadix E r) :
@@ -87,9 +90,10 @@ theorem bigPowOk_of_envRadix {E : Env} {r : Nat} (h : EnvRadix E r) :
     unfold powBases at hc
     simp only [List.all_cons, List.all_nil, Bool.and_true, Bool.and_eq_true] at hc
     exact ⟨bigPowOk_of_check hc.1, bigPowOk_of_check hc.2.1, bigPowOk_of_check hc.2.2⟩
-  rcases h with ⟨hE | hE, hr⟩ | ⟨hE | hE, hr⟩
+  rcases h with ⟨hE | hE | hE, hr⟩ | ⟨hE | hE, hr⟩
   · subst hE; subst hr; exact key _ pow_tables_default
   · subst hE; subst hr; exact key _ pow_tables_compact
+  · subst hE; subst hr; exact key _ pow_tables_pow2
   · subst hE; exact key _ ((List.all_eq_true.mp pow_tables_radix) r hr)
   · subst hE; exact key _ ((List.all_eq_true.mp pow_tables_compact_radix) r hr)
 
@@ -118,6 +122,7 @@ def mantFitB (E : Env) (radix : Nat) : Bool :=
 
 theorem mant_tables_default : (mantOkB envDefault 10 && mantFitB envDefault 10) = true := by decide +kernel
 theorem mant_tables_compact : (mantOkB envCompact 10 && mantFitB envCompact 10) = true := by decide +kernel
+theorem mant_tables_pow2 : (mantOkB envPow2 10 && mantFitB envPow2 10) = true := by decide +kernel
 theorem mant_tables_radix : digitRadices.all (fun r => mantOkB envRadix r && mantFitB envRadix r) = true := by
   decide +kernel
 theorem mant_tables_compact_radix :
@@ -126,10 +131,51 @@ theorem mant_tables_compact_radix :
 theorem mant_of_envRadix {E : Env} {r : Nat} (h : EnvRadix E r) : mantOkB E r = true ∧ mantFitB E r = true := by
   have split : ∀ {a b : Bool}, (a && b) = true → a = true ∧ b = true := by
     intro a b h; simpa using h
-  rcases h with ⟨hE | hE, hr⟩ | ⟨hE | hE, hr⟩
+  rcases h with ⟨hE | hE | hE, hr⟩ | ⟨hE | hE, hr⟩
   · subst hE; subst hr; exact split mant_tables_default
   · subst hE; subst hr; exact split mant_tables_compact
+  · subst hE; subst hr; exact split mant_tables_pow2
   · subst hE; exact split ((List.all_eq_true.mp mant_tables_radix) r hr)
   · subst hE; exact split ((List.all_eq_true.mp mant_tables_compact_radix) r hr)
+
+/-- every build parses radix 10 through `digit_comp` with one of the evaluated table sets -/
+theorem envRadix_decimal (feats : Features) : EnvRadix (envOf feats) 10 := by
+  obtain ⟨c, p2, r, f, sd⟩ := feats
+  have h10 : 10 ∈ digitRadices := by decide
+  cases c <;> cases p2 <;> cases r
+  · exact Or.inl ⟨Or.inl rfl, rfl⟩
+  · exact Or.inr ⟨Or.inl rfl, h10⟩
+  · exact Or.inl ⟨Or.inr (Or.inr rfl), rfl⟩
+  · exact Or.inr ⟨Or.inl rfl, h10⟩
+  · exact Or.inl ⟨Or.inr (Or.inl rfl), rfl⟩
+  · exact Or.inr ⟨Or.inr rfl, h10⟩
+  · exact Or.inl ⟨Or.inr (Or.inl rfl), rfl⟩
+  · exact Or.inr ⟨Or.inr rfl, h10⟩
+
+/-! ## what defines `max_digits` -/
+
+/-- the two facts that make `d = max_digits` a digit limit (`Proof.SlowTruncation`): the largest half-way point between
+two floats is below `radix^d`, and so is the numerator `(2q+1)·(radix/2)^(L+1)` of the finest one; for both float types -/
+def halfwayB (E : Env) (radix : Nat) : Bool :=
+  [f32, f64].all fun f => match E.S.maxDigits f radix with
+    | some d => decide (1 ≤ d) &&
+        decide (2 ^ (f.p + 1) * 2 ^ (f.maxExpField - 2 - (LexVerif.Proof.RoundNE.L f + 1)) ≤ radix ^ d) &&
+        decide (2 ^ (f.p + 1) * (radix / 2) ^ (LexVerif.Proof.RoundNE.L f + 1) ≤ radix ^ d)
+    | none => false
+
+theorem halfway_tables_default : halfwayB envDefault 10 = true := by decide +kernel
+theorem halfway_tables_compact : halfwayB envCompact 10 = true := by decide +kernel
+theorem halfway_tables_pow2 : halfwayB envPow2 10 = true := by decide +kernel
+theorem halfway_tables_radix : digitRadices.all (fun r => halfwayB envRadix r) = true := by decide +kernel
+theorem halfway_tables_compact_radix : digitRadices.all (fun r => halfwayB envCompactRadix r) = true := by
+  decide +kernel
+
+theorem halfway_of_envRadix {E : Env} {r : Nat} (h : EnvRadix E r) : halfwayB E r = true := by
+  rcases h with ⟨hE | hE | hE, hr⟩ | ⟨hE | hE, hr⟩
+  · subst hE; subst hr; exact halfway_tables_default
+  · subst hE; subst hr; exact halfway_tables_compact
+  · subst hE; subst hr; exact halfway_tables_pow2
+  · subst hE; exact (List.all_eq_true.mp halfway_tables_radix) r hr
+  · subst hE; exact (List.all_eq_true.mp halfway_tables_compact_radix) r hr
 
 end LexVerif.Proof.Slow
